@@ -15,6 +15,7 @@ class Conciliation(Observer):
         self.k = {}
         self.episodes = {}   # (nick, inc) -> current conciliation episode of a Master
         self.closed = []
+        self.crashes = []    # t_us of unexpected child exits (they trigger running failure strategies of their own)
 
     def _probe(self, name):
         self.probes[name] = self.probes.get(name, 0) + 1
@@ -79,6 +80,10 @@ class Conciliation(Observer):
                         born[(ns, ident)] = child.born_us
         return born
 
+    def on_child(self, sim, inst, child, what):
+        if what == 'exit' and child.killed_by is None and child.sts not in (None, 0):
+            self.crashes.append(sim.now_us)
+
     def on_request(self, sim, inst, identifier, rtype, body):
         from supvisors.ttypes import RequestHeaders
         ep = self.episodes.get((inst.nick, inst.incarnation))
@@ -141,6 +146,11 @@ class Conciliation(Observer):
                     and ep['t0'] - 40 * US <= t_us <= sim.now_us:
                 self._probe('episode_disturbed')
                 return
+        # a process crashing around the conciliation triggers its own running failure strategy (stop / restart of the
+        # application): the requests of the episode are then not those of the conciliation alone
+        if any(ep['t0'] - 40 * US <= t <= sim.now_us for t in self.crashes):
+            self._probe('episode_disturbed_by_process_crash')
+            return
         if strategy == 'USER':
             if stops or ep['starts']:
                 self.violate('user-strategy-acted', detail, 'user-strategy-acted')
@@ -174,6 +184,11 @@ class Conciliation(Observer):
                         seen = (ep.get('seen') or {}).get('%s@%s' % c)
                         if seen and seen[0] in ('STARTING', 'BACKOFF') and born[c] is not None \
                                 and ep['t0'] - born[c] > int((self._startsecs(sim, ns) + 10) * US):
+                            stale = ':master-view-of-copy-stale'
+                        # the STARTING event was missed (C12 findings): RUNNING is known but the start date is not, and
+                        # the uptime is then the whole monotonic clock of the host
+                        if seen and seen[0] == 'RUNNING' and born[c] is not None \
+                                and seen[1] - (ep['t0'] - born[c]) / US > self._startsecs(sim, ns) + 30:
                             stale = ':master-view-of-copy-stale'
                     for o in others:
                         if strategy == 'SENICIDE' and born[k_copy] < born[o] - tol:
